@@ -87,6 +87,7 @@ def step_run(mode, M, V, NT=None, n=(1800, 80000), extra=None):
         counts = ("NT",)
     if extra:
         evals.update(extra)
+        counts = counts + tuple(k for k in extra if k in ("RA", "GM"))
     return dict(component="step", require="Corr.StepCorr", require_vo="Corr/StepCorr.vo",
                 n=dict(quick=n[0], thorough=n[1]), shard=150, opts=dict(mode=mode), evals=evals, counts=counts)
 
@@ -114,7 +115,8 @@ PROPS.update({
              "(4 actions x 2 branching types x every list of <= 2 branches out of 3 patterns x 4 guards x 2 targets) x 3 error settings x "
              "3 states x 3 pending messages - one step depends on nothing else of a specification - exhaustively in the thorough tier.",
         assumptions=["a step whose guard saw several candidates is not compared (documented as arbitrary)"],
-        runs=[step_run("c04", "c04_violations", "c04_violations", "c04_nontrivial"),
+        runs=[step_run("c04", "c04_violations", "c04_violations", "c04_nontrivial",
+                       extra=dict(RA="replay_ambiguous", GM="glog_multi")),
               # the exhaustive family of one-step behaviours over a small vocabulary (129,816 cases; quick: every 44th)
               dict(step_run("c04", "c04_violations", "c04_violations", "c04_nontrivial", n=(3000, 0)), component="stepenum")],
     ),
